@@ -195,7 +195,7 @@ def gen_cases(chk):
     out = os.path.join(SCR, "%s_gen_%d.ndjson" % (PID, os.getpid()))
     if os.path.exists(out):
         os.remove(out)
-    r = tlc.run("Gen_Pol", "Gen_Pol_full.cfg" if thorough else "Gen_Pol_quick.cfg", env={"GEN_OUT": out}, timeout=1500)
+    r = tlc.run("Gen_Pol", "Gen_Pol_full.cfg" if thorough else "Gen_Pol_quick.cfg", env={"GEN_OUT": out}, timeout=1500, heap="4g")
     chk.mc_must_hold("mc+gen:Pol_" + ("full" if thorough else "quick"), r)
     chk.exhaustive = bool(r.ok)
     if not r.ok:
@@ -424,7 +424,7 @@ def run(chk):
     rnd = random.Random(chk.seed)
     negs = {}
     for cfg in NEGS:
-        r = tlc.run("MC_Pol", cfg, workers=2, timeout=300)
+        r = tlc.run("MC_Pol", cfg, workers=2, timeout=300, heap="2g")
         chk.add_tlc("neg:" + cfg, r)
         negs[cfg] = r.violation
         if r.ok or r.violation is None:
